@@ -89,12 +89,15 @@ Definition show_closekind (k : closekind) : bytes :=
 
 (* None = the read would block (state parked, buffered bytes kept) *)
 Definition try_receive (x : xsys) : option rres * xsys :=
-  let all := x_buf x ++ x_inbox x in
+  (* failing reads are persistent: once set, bytes still in the transport are never read *)
+  let avail := if x_rerr x then [] else x_inbox x in
+  let left := if x_rerr x then x_inbox x else [] in
+  let all := x_buf x ++ avail in
   match bparse_all (x_bst x) all with
-  | (st', rest, Complete r) => (Some (RResp r), set_conn x rest st' [])
-  | (st', rest, BInvalid) => (Some (RErr EInvalid), set_conn x rest st' [])
+  | (st', rest, Complete r) => (Some (RResp r), set_conn x rest st' left)
+  | (st', rest, BInvalid) => (Some (RErr EInvalid), set_conn x rest st' left)
   | (st', rest, NeedMore) =>
-    let x' := set_conn x rest st' [] in
+    let x' := set_conn x rest st' left in
     if x_rerr x then (Some (RErr EIo), x')
     else if x_eof x then
       (Some (if in_progress st' || negb (beq rest []) then RErr EUeof else RClean), x')
@@ -245,7 +248,7 @@ Definition handshake_event (x : xsys) (g : seg) : option (xsys * seg) :=
     let fail e := Some (set_h x1 HDone false true false, add_conn g (b "conn=err:" ++ show_perr e)) in
     let need_more :=
         if x_rerr x then fail EIo else if x_eof x then fail EUeof else None in
-    match x_inbox x with
+    match (if x_rerr x then [] else x_inbox x) with
     | [] => need_more        (* connect reads before it parses *)
     | _ =>
       match p_greeting all with
@@ -270,7 +273,7 @@ Definition handshake_event (x : xsys) (g : seg) : option (xsys * seg) :=
     end
   | HPassword v =>
     match try_receive x with
-    | (None, x1) => if beq (x_inbox x) [] then None else Some (x1, g)
+    | (None, x1) => if beq (x_inbox x) (x_inbox x1) then None else Some (x1, g)
     | (Some r, x1) =>
       match after_password v r with
       | (Some (ConnOk ver), _) =>
@@ -338,7 +341,7 @@ Definition loop_alive (x : xsys) : bool :=
 
 (* a caller starts: do_send (or an immediate result) *)
 Definition issue (x : xsys) (g : seg) (kind : N) (id : N) (arg : bytes) : xsys * seg :=
-  if negb (x_client x) then (x, add_res g id (b "noclient")) else
+  if negb (x_client x && x_handle x) then (x, add_res g id (b "noclient")) else   (* the replayer has no Client to call *)
   let enqueue k bytes_ :=
       if loop_alive x then (set_qc x (x_queue x ++ [mkReq id bytes_]) (x_callers x ++ [(id, k)]), g)
       else (x, add_res g id (b "closed")) in
